@@ -225,12 +225,13 @@ def c2_queues(fb, rep):
         for b, i, e in cw.events():
             if e.get('k') == 'decl':
                 for v in e.get('vars', []):
-                    if v.get('n') == 'add':
+                    if len(re.findall(r'\[(\d+)\]', v.get('ct') or '')) == 2 and (v.get('ct') or '').startswith('int'):
                         dims = [int(x) for x in re.findall(r'\[(\d+)\]', v.get('ct') or '')]
         rep.ob(clause, 'K12 bounded write', 'full-refresh feature buffer holds every non-king man of a legal position (>= 30)', bool(dims) and dims == [2, 32] or (bool(dims) and dims[-1] >= 30),
                cw.where, 'dimensions %s' % dims, cw.sname)
         # kings are excluded from the refresh loop
-        excl = any(e.get('k') == 'decl' and any(v.get('n') == 'squares' and 'WKING' in show(v.get('init'), 400) and 'BKING' in show(v.get('init'), 400) and '~' in show(v.get('init'), 400)
+        ext_ids = {(_strip(e['args'][0]) or {}).get('id') for _, _, e in cw.events() if e.get('k') == 'call' and cname(e) == 'BitBoard::extractSquare' and e.get('args')}
+        excl = any(e.get('k') == 'decl' and any(v.get('id') in ext_ids and 'WKING' in show(v.get('init'), 400) and 'BKING' in show(v.get('init'), 400) and '~' in show(v.get('init'), 400)
                                                 for v in e.get('vars', [])) for _, _, e in cw.events())
         rep.ob(clause, 'K12 bounded write', 'the refresh loop excludes both kings (so at most 30 features per view)', excl, cw.where, '', cw.sname)
     ps = fb.find1('NNEvaluator::pushState')
@@ -340,17 +341,35 @@ def c3_cache(fb, rep, clause='C07.3'):
     if rep.need(clause, ms, 'Evaluate::materialScore'):
         okt = True
         detail = []
+        idx_ids = set()
+        for b, i, e in ms.events():
+            for n in walk(e):
+                if (n.get('k') == 'call' and n.get('op') == '[]' and (ap(n.get('recv')) or '') == 'this.materialHash') or (n.get('k') == 'idx' and (ap(n.get('b')) or '') == 'this.materialHash'):
+                    for x in walk(n.get('args', [{}])[0] if n.get('k') == 'call' else n.get('i')):
+                        if x.get('k') == 'var' and x.get('vk') == 'local':
+                            idx_ids.add(x['id'])
         for b, i, e in ms.events():
             if e.get('k') == 'decl':
                 for v in e.get('vars', []):
-                    if v.get('n') == 'key':
+                    if v.get('id') in idx_ids:
                         for n in walk(v.get('init')):
                             if n.get('k') == 'bin' and n.get('op') in ('*', '+'):
                                 detail.append((n['op'], n.get('t')))
                                 if not (n.get('t') or '').startswith('unsigned'):
                                     okt = False
         rep.ob(clause, 'K12 range', 'materialScore computes the material-hash slot key in unsigned arithmetic', okt and bool(detail), ms.where, str(detail), ms.sname)
-        cmp_ok = any('newMhd.id != mId' in show((blk.get('term') or {}).get('cond') or {}) or 'id != mId' in show((blk.get('term') or {}).get('cond') or {}) for blk in ms.blocks.values())
+        id_ids = {v['id'] for _, _, e in ms.events() if e.get('k') == 'decl' for v in e.get('vars', [])
+                  if any(n.get('k') == 'call' and cname(n) == 'Position::materialId' for n in walk(v.get('init') or {}))}
+
+        def full_id_cmp(c):
+            for n in walk(c or {}):
+                if n.get('k') == 'bin' and n.get('op') in ('!=', '=='):
+                    sides = [_strip(n.get('l')), _strip(n.get('r'))]
+                    if any(isinstance(x, dict) and x.get('k') == 'mem' and x.get('f', '').endswith('MaterialHashData::id') for x in sides) and \
+                            any(isinstance(x, dict) and x.get('k') == 'var' and x.get('id') in id_ids for x in sides):
+                        return True
+            return False
+        cmp_ok = any(full_id_cmp((blk.get('term') or {}).get('cond')) for blk in ms.blocks.values())
         rep.ob(clause, 'K16 cache key', 'the material cache compares the full material id before it trusts an entry', cmp_ok, ms.where, '', ms.sname)
 
 
